@@ -92,7 +92,7 @@ def rule_c06_shapley(prog: Program, col: Collector) -> None:
     rv = rets[0].value
     if not (rv[0] == "bin" and rv[1] == "/" and rv[3] == nfac):
         col.check(False, wref.where(), wref.short, "the weighted sum is divided by n! (the n_fac argument)", construct="divide-nfac",
-                  necessity="the Shapley value is the AVERAGE over n! orderings")
+                  necessity="the Shapley value is the AVERAGE over n! orderings", rule="S5")
         return
     col.ok(wref.where(), wref.short, "the weighted sum is divided by the n_fac argument", rule="S5")
     total = rv[2]
@@ -286,6 +286,16 @@ def rule_c05_exploitability(prog: Program, col: Collector) -> None:
         for s in subterms(r.value):
             if s == ("bin", "+", ("bin", "*", LB, M), ("bin", "*", UB, one_minus)) or s == ("call", ("global", "numpy.where"), (M, LB, UB), ()):
                 swapped = True
+    # generic decomposition: a sum of two products (column, mask | 1 - mask)
+    prods = set()
+    for r in rets:
+        for t in subterms(r.value):
+            if t[0] == "bin" and t[1] == "*":
+                for x, y in ((t[2], t[3]), (t[3], t[2])):
+                    if x in (UB, LB) and y in (M, one_minus):
+                        prods.add(("UB" if x == UB else "LB", "mask" if y == M else "1-mask"))
+    if not okv and len(prods) == 2 and prods != {("UB", "mask"), ("LB", "1-mask")}:
+        swapped = True
     if not okv and not swapped and not any(has_subterm(r.value, UB) for r in rets):
         col.undecidable(gv.where(), gv.short, "vector accessor not of the form UB*mask + LB*(1-mask) / np.where(mask, UB, LB)")
     else:
